@@ -129,4 +129,46 @@ theorem c07s_single_word_piece (T A rest : List Tok) (cs : CharSpec) (e : Ext) (
           [Span.pos (offAt T (A.length + 1))]⟩) } : BP α) A tm tl rest hT' h5 hlm hrest hvis hrun
       refine ⟨_, _, this, by simp [h1], rfl⟩
 
+theorem c07s_swEvs_congr (T A R R' : List Tok) (h : R'.head?.map (·.kind) = R.head?.map (·.kind)) :
+    c07s_swEvs (α := α) T A R' = c07s_swEvs T A R := by
+  unfold c07s_swEvs
+  cases h1 : R'.head? <;> cases h2 : R.head? <;> rw [h1, h2] at h <;> simp at h
+  · simp only [h]
+
+theorem c07s_head_pred {R R' : List Tok} (h : R'.head?.map (·.kind) = R.head?.map (·.kind)) (p : TK → Prop)
+    (hp : ∀ t, R.head? = some t → p t.kind) : ∀ t, R'.head? = some t → p t.kind := by
+  intro t ht
+  rw [ht] at h
+  cases h2 : R.head? with
+  | none => rw [h2] at h; simp at h
+  | some u =>
+    rw [h2] at h
+    simp only [Option.map_some, Option.some.injEq] at h
+    rw [h]; exact hp u h2
+
+/-- the marker that starts no component, given by SPECIFICATION tokens `tmS :: tlS` followed by `restS`: a piece on
+    every actual block spelling them (all conditions read kinds and texts only) -/
+theorem c07s_single_word_pieceAt (cs : CharSpec) (e : Ext) (tmS : Tok) (tlS restS : List Tok)
+    (hk : tmS.kind = .at ∨ tmS.kind = .hash ∨ tmS.kind = .tilde)
+    (hl : ∀ t ∈ tlS, (t.kind == .openBrace || isMarker t.kind) = false)
+    (hrest : ∀ t, restS.head? = some t → isMarker t.kind = true)
+    (h0 : ∀ t, (tlS ++ restS).head? = some t → isModStart t.kind = false ∧ isShortK t.kind = false)
+    (hvis : (tmS :: tlS).flatMap vis ≠ [])
+    (T tpre tB tpost : List Tok) (hT : T = tpre ++ (tB ++ tpost)) (hsB : Spells tB (tmS :: tlS))
+    (hpost : Spells tpost restS) (hrun : RunAt (baseOff T) T) :
+    PlPieceAt (α := α) T cs e tpre ⟨tB, fun evs =>
+      evs = c07s_swEvs T tpre (tlS ++ restS) ++ [.text (buildText (offAt T tpre.length) tB)]⟩ := by
+  obtain ⟨tm, tl, rfl, k1, -, k2⟩ := hsB.cons_inv
+  have ks : Spells (tl ++ tpost) (tlS ++ restS) := Spells.append k2 hpost
+  have hw : WF T := ⟨by rw [hT]; simp, hrun⟩
+  have hv : (tm :: tl).flatMap vis ≠ [] := by
+    rw [Spells.vis_eq (c07v_spells_cons k1 (by have := hsB.cons_inv; obtain ⟨_, _, e, _, ht, _⟩ := this; cases e; exact ht) k2)]
+    exact hvis
+  have := c07s_single_word_piece (α := α) T tpre tpost cs e tm tl hT hw (by rw [k1]; exact hk)
+    (c07d_kind_of_spells k2 (fun k => (k == .openBrace || isMarker k) = false) hl)
+    (c07s_head_pred hpost.head_kind (fun k => isMarker k = true) hrest)
+    (c07s_head_pred ks.head_kind (fun k => isModStart k = false ∧ isShortK k = false) h0) hv
+  rw [c07s_swEvs_congr T tpre _ _ ks.head_kind] at this
+  exact this
+
 end Cook
